@@ -15,7 +15,7 @@ RULE = ('exact: random/boundary graphs n<=8 x harness tables (duration per (node
 ASSUMPTIONS = ['user delay lists are ascending; three profiles keep them shorter than the duration (documented use), the profile late also lists attempts after the recovery of the source (the statement says: for every listed delay)', 'event times are distinct (checked per case; cases with ties are discarded and counted)']
 BUDGET = {'quick': 150, 'thorough': 1200}
 CHUNK = {'quick': 30, 'thorough': 150}
-REQUIRED = ['histories_compared', 'reinfections_seen', 'blocked_attempts_seen', 'user_fn_args_checked', 'law_tests', 'late_attempt_cases', 'stored_delay_lists_handed_out_again']
+REQUIRED = ['histories_compared', 'reinfections_seen', 'blocked_attempts_seen', 'user_fn_args_checked', 'law_tests', 'late_attempt_cases', 'stored_delay_lists_handed_out_again', 'horizons_placed_exactly_on_an_event']
 INF = float('inf')
 
 
@@ -34,7 +34,7 @@ def gen_cases(tier, seed):
         tmax = tmin + r.choice([1.0, 3.0, 7.0])
         if tmin < 0 and r.random() < 0.4:
             tmax = r.choice([0, 0.0])          # horizon exactly zero (a falsy number) after a negative start
-        out.append({'kind': 'exact', 'graph': desc, 'I0': I0, 'tmin': tmin, 'tmax': tmax,
+        out.append({'kind': 'exact', 'graph': desc, 'I0': I0, 'tmin': tmin, 'tmax': tmax, 'tmax_on_event': r.random() < 0.25,
                     'profile': r.choice(['sparse', 'dense', 'heavy', 'late', 'stored']), 'form': r.choice(['sep', 'joint']), 'full': r.random() < 0.6, 'seed': cs})
     runs = 20000 if q else 250000
     ncfg = 4 if q else 12
@@ -141,6 +141,14 @@ def run_exact(case, res):
     seed, profile = case['seed'], case['profile']
     tmin, tmax = case['tmin'], case['tmax']
     hist, trans, rows, distinct, blocked, occs = reference(n, nbrs, seed, profile, case['I0'], tmin, tmax)
+    if case.get('tmax_on_event') and distinct:
+        # the horizon placed exactly on the time of an infection of the untruncated history (a tmax copied from an earlier run, rules on
+        # a grid): "events at or after tmax are not reported" includes the event at tmax itself
+        later = [t for (t, a, b) in trans if a is not None and t > tmin]
+        if later:
+            tmax = later[(seed // 7) % len(later)]
+            hist, trans, rows, distinct, blocked, occs = reference(n, nbrs, seed, profile, case['I0'], tmin, tmax)
+            bump(res, 'horizons_placed_exactly_on_an_event')
     if not distinct:
         bump(res, 'discarded_ties')
         return
